@@ -265,6 +265,32 @@ def check_property(prop, tier='quick', seed=0):
             r = mod.run(prop, eng, tier, seed)
             failures += r.get('failures', [])
             stats[eng['module']] = r
+        # Regression inputs of the findings recorded as fixed for this property (regressions.json, committed): code that is
+        # not under contract (qsieve64, squfof, kernel_gauss, pm1_impl) can only show a returning defect by running it.
+        # The inputs are executed on the real code (dev profile: overflow and debug checks on); this is a bounded
+        # stand-in, listed as such and never counted as proved; a failing input is a violation with that input.
+        try:
+            regs = json.load(open(os.path.join(VERIF, 'regressions.json'))).get(prop, [])
+        except (OSError, ValueError):
+            regs = []
+        if regs:
+            from . import replay
+            rg = {'obligations': 0, 'discharged': 0, 'backend': 'regression inputs of fixed findings (bounded stand-in)', 'samples': [], 'bounded': [], 'cmds': []}
+            for case in regs:
+                w = replay.run_case(verus.REPO, case, seed, 300, 'dev', timeout=300)
+                if w and str(w.get('failing_input', '')).startswith('timeout after'):
+                    rg['bounded'].append('regression case %s: stopped after 300 s (inconclusive)' % case)
+                    w = None
+                else:
+                    rg['bounded'].append('regression case %s (dev profile, its fixed inputs + 300 structured random inputs): %s' % (case, 'FAILING INPUT' if w else 'no failing input'))
+                if w:
+                    f = Failure(prop, 'regression::' + case, 'regression', case, w.get('failing_input', '')[:200],
+                                'an input recorded with a fixed finding of %s fails again on the real code' % prop, engine='replay')
+                    f.witness = w
+                    failures.append(f)
+            if tier != 'thorough':
+                replay.cleanup()
+            stats['regress'] = rg
         if tier == 'thorough' and sel:
             # Exploration beyond the proofs (bounded, never counted as proved): the executable mirrors of the contracts
             # are run on the real code with structured random inputs. Units with an open known finding are left out
